@@ -1,4 +1,6 @@
 SPECIFICATION Spec
-CONSTANT Tier = "quick"
+CONSTANTS Tier = "quick"
+          Styles = {"plain", "dot", "updown"}
+          Allows = {TRUE}
 INVARIANT Emit
 CHECK_DEADLOCK FALSE
